@@ -5,6 +5,8 @@
 From Coq Require Import List Arith ZArith Lia Permutation.
 Import ListNotations.
 From LS Require Import Gen_Leaf Slicing Writes Cidx Gen_LeafProofs.
+(* the metric axioms of the distances are stated in Properties_C13b.v (MathComp style) *)
+From LS Require Properties_C13b.
 
 (* every slicing loop of the library, for every row count and every positive thread count
    (more threads than rows, one thread, non-dividing counts, rows = 0): the slices read in
